@@ -546,6 +546,17 @@ func floatAbs(x value) value {
 // floatMinMax implements math.Max/Min and the builtin max/min for floats
 // (NaN-propagating; sign of zero not modelled for symfix).
 func floatMinMax(x, y value, isMax bool) value {
+	// min(+Inf, v) = v and max(-Inf, v) = v exactly for every finite v (a symfix is
+	// finite): the usual way to start a bounding-box fold must not leave the exact lowering
+	for _, p := range [][2]value{{x, y}, {y, x}} {
+		if c, ok := p[0].(float64); ok {
+			if _, isFix := p[1].(symfix); isFix {
+				if (!isMax && math.IsInf(c, 1)) || (isMax && math.IsInf(c, -1)) {
+					return p[1]
+				}
+			}
+		}
+	}
 	tt := tableOf(x, y)
 	fa, oka := asFix(tt, x)
 	fb, okb := asFix(tt, y)
